@@ -459,6 +459,45 @@ class AsyncSrcProxy:
         return getattr(self._inner, name)
 
 
+class AsyncIterable:
+    """An async *iterable* that is not its own iterator (a collection, a query): asked for an iterator it hands out
+    a fresh one.  The counterparts call ``iter()`` on each argument exactly once; a second request would, for a
+    real collection, silently start over - here it is reported in ``CTX.foreign``."""
+
+    def __init__(self, st: SrcState):
+        self.st = st
+        self.asked = 0
+
+    def __bool__(self) -> bool:
+        return False
+
+    def __len__(self) -> int:
+        return 0
+
+    def __aiter__(self) -> "AsyncSrc":
+        self.asked += 1
+        if self.asked > 1:
+            CTX.foreign.append(f"iterable {self.st.sid} was asked for an iterator {self.asked} times")
+        return AsyncSrc(self.st)
+
+
+class SyncIterable:
+    """The synchronous twin of ``AsyncIterable``."""
+
+    def __init__(self, st: SrcState):
+        self.st = st
+        self.asked = 0
+
+    def __bool__(self) -> bool:
+        return False
+
+    def __iter__(self) -> Any:
+        self.asked += 1
+        if self.asked > 1:
+            CTX.foreign.append(f"iterable {self.st.sid} was asked for an iterator {self.asked} times")
+        return SyncSrc(self.st)
+
+
 async def _async_gen(st: SrcState):
     try:
         while True:
@@ -483,9 +522,9 @@ async def _async_gen(st: SrcState):
         raise
 
 
-FLAVOURS_SYNC = ("list", "tuple", "getitem_seq", "sync_iter", "sync_gen")
+FLAVOURS_SYNC = ("list", "tuple", "getitem_seq", "sync_iter", "sync_gen", "sync_iterable")
 FLAVOURS_ASYNC = ("async_gen", "async_class", "async_class_bare", "async_class_full", "async_class_asend",
-                  "async_class_future", "async_class_proxy", "async_class_lazy")
+                  "async_class_future", "async_class_proxy", "async_class_lazy", "async_iterable")
 FLAVOURS = FLAVOURS_SYNC + FLAVOURS_ASYNC
 
 
@@ -518,6 +557,10 @@ def make_source(st: SrcState, flavour: str) -> Any:
         return AsyncSrcProxy(st)
     if flavour == "async_class_lazy":
         return AsyncSrcLazy(st)
+    if flavour == "async_iterable":
+        return AsyncIterable(st)
+    if flavour == "sync_iterable":
+        return SyncIterable(st)
     raise ValueError(flavour)
 
 
